@@ -1,0 +1,27 @@
+//go:build verif
+
+package expressions
+
+// Contracts for the goverif VC generator (/verif). Comment-only file: it adds no code.
+
+// ---- C07: logical operators inside expressions ------------------------------------------------------
+// Abstracted (scope functional): what is checked are call-site assertions - the thing converted to
+// a string and tested for truthiness is the operand's VALUE, with the operand's exit number.
+
+//@ func expLogicalAnd [C07]
+//@   scope functional
+//@   at call ConvertGoType#1 assert arg0 == nv.Value && arg1 == "str"
+//@   at call IsTrueString#1 assert arg1 == nv.ExitNum
+//@   at call ConvertGoType#2 assert arg0 == nv.Value && arg1 == "str"
+//@   at call IsTrueString#2 assert arg1 == nv.ExitNum
+
+//@ func expLogicalOr [C07]
+//@   scope functional
+//@   at call ConvertGoType#1 assert arg0 == nv.Value && arg1 == "str"
+//@   at call IsTrueString#1 assert arg1 == nv.ExitNum
+//@   at call ConvertGoType#2 assert arg0 == nv.Value && arg1 == "str"
+//@   at call IsTrueString#2 assert arg1 == nv.ExitNum
+
+//@ func expElvis [C07]
+//@   scope functional
+//@   at call ConvertGoType#1 assert arg0 == left.Value && arg1 == "bool"
